@@ -226,6 +226,8 @@ def render(repo: Path) -> str:
     out.append("/-- … of the nested `visit` in `ValidationContext.get_variable_usages`. -/")
     out.append(f'def nestedUsagesVisitKeys : String := "{vf["nested_keys"]}"')
     out.append("/-- `if max_errors is None: max_errors = …` in `validate()`. -/")
+    if not isinstance(vf["max_errors_default"], int):
+        raise ValueError("validate(): `if max_errors is None: max_errors = <int>` not found (the default limit is a parameter of limit_prefix)")
     out.append(f"def maxErrorsDefault : Nat := {int(vf['max_errors_default'])}")
     out.append("")
     for nm in ("recommended_rules", "specified_rules", "specified_sdl_rules"):
